@@ -97,7 +97,7 @@ pub fn render_markdown(doc: &DocSpec, log: &str) -> Vec<u8> {
         s.push_str("---\n\n");
     }
     s.push_str(&format!("# Document {}\n\n", doc.name));
-    if (doc.tests.is_empty() && doc.filler == 0) {
+    if doc.tests.is_empty() && doc.filler == 0 {
         s.push_str("This document has no test cases of its own.\n");
     }
     for t in &doc.all_tests() {
@@ -138,7 +138,7 @@ pub fn render_markdown(doc: &DocSpec, log: &str) -> Vec<u8> {
 
 pub fn render_cram(doc: &DocSpec, log: &str) -> Vec<u8> {
     let mut s = String::new();
-    if (doc.tests.is_empty() && doc.filler == 0) {
+    if doc.tests.is_empty() && doc.filler == 0 {
         s.push_str("This document has no test cases of its own\n");
     }
     for t in &doc.all_tests() {
